@@ -105,6 +105,8 @@ def cases(rng, tier):
             out.append({"f": "ragged_slice_nd", "nd": 1, "n": n, "starts": ss, "ends": es, "dtype": dt(), "vseed": rng.randint(0, 99)})
         else:
             r, c = rng.randint(1, 4), rng.randint(1, 5)
+            if rng.random() < 0.12:
+                r, c = rng.choice([(rng.randint(1, 4), 0), (0, rng.randint(0, 3))])     # degenerate matrices: no column / no row
             ss = [rng.randint(0, c) for _ in range(r)]; es = [rng.randint(s, c) for s in ss]
             if rng.random() < 0.3:
                 es = [e - c if e < c else e for e in es]
